@@ -12,6 +12,9 @@ CLAIMED = {
     "C05": ("exploration", "contracts on the real functions decided by bounded symbolic execution (pyvc, concrete shapes, all values symbolic) with z3; harness drives the real bracket manager through every arrival order up to a bound",
             "Bounded stand-in, not a proof: get_top_list against its specification for rungs of <= 4 entries (metrics and NaN flags symbolic), and the real SynchronousHyperbandBracketManager under every order of up to 5 (thorough: 7) result events with 2 jobs in flight on three rung systems; every clause must hold on every explored path.",
             "Bounded shapes (stated in evidence); A-REAL with explicit NaN flag; DEHB brackets not covered; pyvc encoding and z3 trusted.", "5/C05"),
+    "C19": ("exploration", "contracts on the real functions decided by bounded symbolic execution (pyvc with a trusted mini-numpy model for arrays of concrete shape) and z3",
+            "Bounded stand-in, not a proof: pareto_efficient / nondominated_sort / NonDominatedPriority against the dominance and Pareto-layer specification for <= 4 points in <= 3 dimensions (all coordinates symbolic, ties included); _Bracket.on_result and MOASHA.on_trial_result against the rank-fraction rule for <= 3 recorded trials per rung; counter-models replayed natively.",
+            "Bounded shapes; A-REAL; mini-numpy array model trusted; np.linalg.norm abstracted by the squared norm; bracket sampling in on_trial_add (global RNG) not covered.", "5/C19"),
     "C04": ("proof", "contract-based deductive verification: VCs generated from the real AST (pyvc) with loop invariants and modular callee contracts, discharged by z3/cvc5; bounded-shape stand-in for the cost-aware variant and for witnesses",
             "Unbounded verification conditions (rung contents of any length, 0..3 rungs) for PromotionRungSystem (find/mark/schedule/add/report/remove) and PASHA's resource cap in on_task_schedule, from /repo's source on every run; cost-aware eligibility bounded (<=4 entries).",
             "A-REAL; SortedList contract trusted; number of rungs concrete in proof units; cost values non-negative; PASHA ranking/epsilon logic and DyHPO not covered; pyvc encoding and SMT solvers trusted.", "5/C04"),
